@@ -5,6 +5,9 @@ VERIF = os.path.dirname(os.path.dirname(os.path.abspath(__file__)))
 ALL = ["C%02d" % i for i in range(1, 21)]
 
 CHECKS = {
+ "C02": dict(engine="H", technique="explicit-state BFS over timer operation histories on the real loop under a virtual monotonic clock (interposed clock_gettime), canonical-state dedup, per-timer deadline reference model, ASan with de-pooled timer records",
+   text="Every history up to the depth of enable/disable/destroy/reinit and clock advances (including waking several periods late and equal deadlines) on 3-4 real TimerEvents whose callbacks disable/destroy/enable/restart themselves or others, and of doEvery/doAfter/cancel/cleanup on the real TimerPool, is executed on both back-ends; the oracle runs inside every callback (never early, deadline order, never on a disabled/destroyed timer) and after every pass (no due period left unfired, isEnabled agrees).",
+   note="Trusted: the 20-line deadline model, interposed clock (libstdc++ steady_clock -> clock_gettime), ASan; bounds: <=4 timers, depth 5 (quick) / 7 (thorough), advances in {0,1,2,3,7} ms.", ref="2/C02"),
  "C01": dict(engine="S+H", technique="stateless model checking under a cooperative scheduler (preemption-bounded DFS of all interleavings of submitting threads with the real loop on both back-ends, TSan on every schedule) + explicit-state BFS over single-thread submit/cancel/loop/destroy histories",
    text="All interleavings up to the completed preemption bound of cross-thread runInLoop submissions with loop start, iterations, exit, re-run and destruction are executed on the real epoll and select loops (eventfd, recursive mutex and epoll_wait/select are scheduling points); a closing protocol makes every deadlock a lost wake-up. All single-thread histories up to the depth of runNext/runInLoop/run with callables that spawn, cancel in-batch or exit, cancel(id) and loop passes are compared against exactly-once/never-after-cancel/order/not-dropped oracles.",
    note="Trusted: scheduler model of recursive mutex/eventfd/epoll readiness (probed on the real kernel objects), TSan/ASan; bounds: <=3 threads, <=8 submissions, preemption bound 2/3, history depth 4/6.", ref="2/C01"),
